@@ -57,6 +57,14 @@ type Node struct {
 	Compressed bool `json:"compressed,omitempty"` // member of an object stream where the file format allows it
 	Freed      bool `json:"freed,omitempty"`      // serial source: a second revision frees the object
 
+	// library source at PDF >= 1.5 only: the stream is written with an
+	// explicit leading pdf.FilterCryptIdentity{} (stored as plaintext even in
+	// an encrypted file); CryptInd: after the file is complete, the name
+	// /Crypt in the stream's /Filter array is overwritten with the equally
+	// long "2 0 R " where object 2 holds the name /Crypt
+	CryptIdentity bool `json:"crypt_identity,omitempty"`
+	CryptInd      bool `json:"crypt_ind,omitempty"`
+
 	// serial source only
 	LenInd    bool `json:"len_ind,omitempty"`    // /Length is a reference
 	FilterArr bool `json:"filter_arr,omitempty"` // a single filter is still written as a one-element array
@@ -111,6 +119,7 @@ type observed struct {
 }
 
 const (
+	cryptNameNum = 2 // library source: object holding the name /Crypt (one digit, so that "2 0 R " is as long as "/Crypt")
 	firstNodeNum = 3
 	auxBase      = 40 // auxiliary objects of node i: auxBase+10*i+k
 	libAllocs    = 170
@@ -151,6 +160,7 @@ type srcObj struct {
 	dict     gen.O // stream dictionary including /Filter and /DecodeParms
 	data     []byte
 	aux      bool
+	crypt    int // 1: /Filter must be an array starting with the name /Crypt; 2: with a reference to it
 }
 
 type model struct {
@@ -435,6 +445,12 @@ func (c *Case) writeLib(m *model) ([]byte, error) {
 	if err := w.Put(pages, pdf.Dict{"Type": pdf.Name("Pages"), "Kids": pdf.Array{}, "Count": pdf.Integer(0)}); err != nil {
 		return nil, err
 	}
+	if c.hasCryptInd() {
+		if err := w.Put(mkRef(cryptNameNum, 0), pdf.Name("Crypt")); err != nil {
+			return nil, err
+		}
+		m.add(&srcObj{ref: mkRef(cryptNameNum, 0), val: gen.O{T: "name", S: gen.Hex("Crypt")}, aux: true})
+	}
 	var crefs []pdf.Reference
 	var cobjs []pdf.Object
 	for i := range c.Nodes {
@@ -443,10 +459,16 @@ func (c *Case) writeLib(m *model) ([]byte, error) {
 		switch {
 		case n.Kind == "stream":
 			d := userDict(n).PDF().(pdf.Dict)
-			if len(n.Filters) == 0 && len(n.Data)%2 == 0 {
+			if len(n.Filters) == 0 && len(n.Data)%2 == 0 && !n.CryptIdentity {
 				err = w.Put(ref, pdf.NewStream(d, append([]byte{}, n.Data...)))
 			} else {
 				var filters []pdf.Filter
+				if n.CryptIdentity {
+					// an empty array makes the Writer use the array form of
+					// /Filter even for a single filter
+					d["Filter"] = pdf.Array{}
+					filters = append(filters, pdf.FilterCryptIdentity{})
+				}
 				for _, tag := range n.Filters {
 					filters = append(filters, wprog.MakeFilter(tag))
 				}
@@ -459,7 +481,14 @@ func (c *Case) writeLib(m *model) ([]byte, error) {
 					err = ws.Close()
 				}
 			}
-			m.add(&srcObj{ref: ref, isStream: true, dict: userDict(n), data: n.Data})
+			so := &srcObj{ref: ref, isStream: true, dict: userDict(n), data: n.Data}
+			if n.CryptIdentity {
+				so.crypt = 1
+				if n.CryptInd {
+					so.crypt = 2
+				}
+			}
+			m.add(so)
 		case n.Compressed && n.Gen == 0 && n.Obj.T != "ref":
 			crefs = append(crefs, ref)
 			cobjs = append(cobjs, n.Obj.PDF())
@@ -480,7 +509,80 @@ func (c *Case) writeLib(m *model) ([]byte, error) {
 	if err := w.Close(); err != nil {
 		return nil, err
 	}
-	return sinkBytes(sink), nil
+	data := sinkBytes(sink)
+	if c.hasCryptInd() {
+		if err := c.patchCryptRefs(data); err != nil {
+			return nil, err
+		}
+	}
+	return data, nil
+}
+
+func (c *Case) hasCryptInd() bool {
+	for i := range c.Nodes {
+		if n := &c.Nodes[i]; c.Writer == "lib" && n.Kind == "stream" && n.CryptIdentity && n.CryptInd {
+			return true
+		}
+	}
+	return false
+}
+
+// patchCryptRefs overwrites, in the finished file, the name /Crypt at the
+// start of the /Filter array of every CryptInd stream with "2 0 R ".  Both
+// are six bytes long, so no offset moves.  The library's Writer never emits
+// an indirect first /Filter element; other producers do.
+//
+// The stream object is located by a byte search for its header "N G obj"
+// at the start of a line which is followed by a dictionary whose /Filter
+// array starts with /Crypt, before the keyword stream.  (Stream data stored
+// as plaintext may contain something that looks like a header, but not such
+// a dictionary; the read-back check of the source verifies the result.  The
+// independent parser cannot be used here: it rejects files with #00 in names,
+// which the generator produces.)
+func (c *Case) patchCryptRefs(data []byte) error {
+	for i := range c.Nodes {
+		n := &c.Nodes[i]
+		if n.Kind != "stream" || !n.CryptIdentity || !n.CryptInd {
+			continue
+		}
+		header := []byte(fmt.Sprintf("\n%d %d obj\n", n.Num, n.Gen))
+		done := false
+		for from := 0; !done; {
+			at := bytes.Index(data[from:], header)
+			if at < 0 {
+				break
+			}
+			start := from + at + len(header)
+			from = start
+			if !bytes.HasPrefix(data[start:], []byte("<<")) {
+				continue
+			}
+			end := bytes.Index(data[start:], []byte("\nstream\n"))
+			if end < 0 {
+				continue
+			}
+			head := data[start : start+end]
+			fa := bytes.Index(head, []byte("/Filter"))
+			if fa < 0 {
+				continue
+			}
+			rest := head[fa+len("/Filter"):]
+			k, bracket := 0, false
+			for k < len(rest) && (rest[k] == ' ' || rest[k] == '\n' || rest[k] == '[') {
+				bracket = bracket || rest[k] == '['
+				k++
+			}
+			if !bracket || !bytes.HasPrefix(rest[k:], []byte("/Crypt")) {
+				continue
+			}
+			copy(rest[k:], fmt.Sprintf("%d 0 R ", cryptNameNum))
+			done = true
+		}
+		if !done {
+			return fmt.Errorf("stream object %d %d with /Filter [/Crypt ...] not found in the source file", n.Num, n.Gen)
+		}
+	}
+	return nil
 }
 
 // harnessError marks a failure of the scaffolding (source could not be
@@ -819,6 +921,16 @@ func sourceAsModelled(src *pdf.Reader, m *model) error {
 			}
 		}
 		so.dict = full
+		if so.crypt != 0 {
+			fa, _ := stm.Dict["Filter"].(pdf.Array)
+			var want pdf.Object = pdf.Name("Crypt")
+			if so.crypt == 2 {
+				want = mkRef(cryptNameNum, 0)
+			}
+			if len(fa) == 0 || fa[0] != want {
+				return fmt.Errorf("source stream %s: /Filter is %s, want an array starting with %v", ref, pdf.AsString(stm.Dict["Filter"]), want)
+			}
+		}
 		body, err := decodeAll(src, stm)
 		if err != nil {
 			return fmt.Errorf("source stream %s: %w", ref, err)
